@@ -65,6 +65,9 @@ type Shape struct {
 	// top-level declaration sequence over under a fresh root (documented top-level repetition) instead of repeating
 	// inside one root.
 	EDIRootRepeat bool `json:"edi_root_repeat,omitempty"`
+	// XMLDecl (xml): when non-empty the document starts with an XML declaration carrying this encoding label (the xml
+	// decoder applies the label on top of whatever parser_settings.encoding already did)
+	XMLDecl string `json:"xml_decl,omitempty"`
 	// XMLText (xml): how field values are written as character data: 0 escaped text; 1 one CDATA section; 2 text followed by
 	// a CDATA section; 3 text, a comment, text; 4 two adjacent CDATA sections; 5 text, a processing instruction, text. The
 	// character data of the element is the same in every mode (several adjacent text nodes in the tree for 2..5).
@@ -528,6 +531,13 @@ func (s Shape) transformDecls() obj {
 		}
 		fields["ctx0"] = ctxLen()
 		fields["onc0"] = obj{"xpath": "c0", "object": obj{"ctx0": ctxLen()}}
+		// two scripts that differ in white space inside a string literal only
+		fields["ws1"] = obj{"custom_func": obj{"name": "javascript", "args": []interface{}{
+			obj{"const": "x + '  ' + x.length"}, obj{"const": "x"}, obj{"xpath": "c0", "no_trim": true}}}}
+		fields["ws2"] = obj{"custom_func": obj{"name": "javascript", "args": []interface{}{
+			obj{"const": "x + ' ' + x.length"}, obj{"const": "x"}, obj{"xpath": "c0", "no_trim": true}}}}
+		// an array over a union: document order, whatever IDs the (pooled) nodes carry
+		fields["uni"] = obj{"array": []interface{}{obj{"xpath": "c0 | " + last + " | c0"}}}
 		fields["ie_a"] = twin(true)
 		fields["ie_b"] = twin(false)
 		fields["pjs"] = obj{"xpath": "..", "custom_func": obj{"name": "javascript_with_context", "args": []interface{}{
@@ -1054,6 +1064,9 @@ func (s Shape) RenderParts(recs []Rec) (pro string, parts []string, epi string) 
 			}
 			pro = `<?xml version="1.0" encoding="UTF-8"?>` + eol + `<root` + rootNS + `><head a="1">h</head><body` + bodyNS + `>`
 			epi = "</body><foot/></root>" + eol
+		}
+		if s.XMLDecl != "" {
+			pro = `<?xml version="1.0" encoding="` + s.XMLDecl + `"?>` + strings.TrimPrefix(pro, `<?xml version="1.0" encoding="UTF-8"?>`)
 		}
 		xmlEscape := func(v string) string { return xmlCharData(v, s.XMLText) }
 		for _, r := range recs {
